@@ -242,7 +242,7 @@ def run(ctx):
         for rd in tsample:                     # every hostile round costs a daemon and a TLC run of its own
             if "hostile" in rd["scens"][0]["kinds"]:
                 nh += 1
-                if nh > (3 if quick else 12):
+                if nh > (2 if quick else 12):
                     continue
             keep.append(rd)
         vmd_trace.validate(ctx, bench, "C18", keep, findings, stats, traces, yield_seed=ctx.seed + 9)
